@@ -44,6 +44,20 @@ def gen_cases(tier, seed):
     yield {"objs": [["t", ["i", "j"], 1]], "target": "ji"}
     yield {"objs": [["t", ["i", "k"], 1], ["t", ["i", "j"], 1], ["t", ["i", "j"], 1], ["t", ["j"], 1]], "target": "k"}
     yield {"objs": [["t", ["i"], 1], ["t", ["j"], 1], ["t", ["i", "j"], 1]], "target": None}
+    # hyper-contractions (an index shared by >= 3 objects) under a limit on the
+    # number of simultaneously contracted objects: a group below the limit can
+    # grow past it in one step
+    yield {"objs": [["t", ["i", "j"], 1], ["t", ["i"], 1], ["t", ["i", "j"], 1], ["t", ["j"], 1],
+                    ["t", ["j"], 1]], "target": None, "max_n": 4}
+    for _ in range(60 if tier == "quick" else 1500):
+        pool = rng.choice([["i", "j"], ["i", "j", "k"], ["i", "j", "a"]])
+        objs = [["t", [rng.choice(pool) for _ in range(rng.randint(1, 2))], 1]
+                for _o in range(rng.randint(4, 6))]
+        objs = [o for o in objs if len(set(o[1])) == len(o[1])]
+        case = {"objs": objs, "target": None, "max_n": rng.randint(2, 5)}
+        if rng.random() < 0.3:
+            case["max_itmd_dim"] = rng.randint(1, 2)
+        yield case
     n = 250 if tier == "quick" else 5000
     for _ in range(n):
         nobj = rng.randint(1, 4)
@@ -235,6 +249,6 @@ CHECKS = {
     "schemes.execute": {
         "function": "adcgen.generate_code.optimize_contractions:optimize_contractions",
         "cases": gen_cases, "check": check,
-        "bound": "terms of <= 4 objects (rank <= 3, exponents <= 2, deltas, traces) over 6 index names, optional explicit target order, max_itmd_dim 1..3, max_n_simultaneous_contracted 2..3; 2 occ + 2 virt spin orbitals, all target assignments",
+        "bound": "terms of <= 4 objects (rank <= 3, exponents <= 2, deltas, traces) over 6 index names, optional explicit target order, max_itmd_dim 1..3, max_n_simultaneous_contracted 2..3; hyper-contractions of 4-6 objects of rank <= 2 over 2-3 index names with max_n_simultaneous_contracted 2..5; 2 occ + 2 virt spin orbitals, all target assignments",
     },
 }
